@@ -28,11 +28,13 @@ pub struct E2e {
     pub ext: Vec<(String, Vec<u8>)>,
     /// For the constants family: the request the Lean model answers (`cst ...`).
     pub cst_req: Option<String>,
+    /// Extra rten-convert command line arguments (`--v1`: FlatBuffers-only file, all tensor data inline).
+    pub extra_args: String,
 }
 
 impl E2e {
     pub fn new(label: &str, graph: Graph) -> E2e {
-        E2e { label: label.into(), graph, opset: 21, feeds: vec![], ext: vec![], cst_req: None }
+        E2e { label: label.into(), graph, opset: 21, feeds: vec![], ext: vec![], cst_req: None, extra_args: String::new() }
     }
     pub fn out_names(&self) -> Vec<String> {
         self.graph.outputs.iter().map(|o| o.name.clone()).collect()
@@ -478,7 +480,7 @@ pub fn convert_all(dir: &Path, models: &[E2e], jobs: usize) -> Vec<Converted> {
         }
         let p = mdir.join(format!("m{i}.onnx"));
         std::fs::write(&p, enc_model(&m.graph, m.opset)).unwrap();
-        paths.push((p.clone(), p.with_extension("rten")));
+        paths.push((p.clone(), p.with_extension("rten"), m.extra_args.clone()));
     }
     let script = format!("{}/harness/pyshim/run_convert.py", verif_dir());
     let jobs = jobs.max(1).min(models.len().max(1));
@@ -486,7 +488,7 @@ pub fn convert_all(dir: &Path, models: &[E2e], jobs: usize) -> Vec<Converted> {
     let mut lists = vec![];
     for (j, c) in paths.chunks(chunk.max(1)).enumerate() {
         let lp = dir.join(format!("batch{j}.txt"));
-        let body: String = c.iter().map(|(a, b)| format!("{}\t{}\n", a.display(), b.display())).collect();
+        let body: String = c.iter().map(|(a, b, x)| format!("{}\t{}\t{}\n", a.display(), b.display(), x)).collect();
         std::fs::write(&lp, body).unwrap();
         lists.push((lp, c.len()));
     }
@@ -528,7 +530,7 @@ pub fn convert_all(dir: &Path, models: &[E2e], jobs: usize) -> Vec<Converted> {
     paths
         .into_iter()
         .zip(results)
-        .map(|((a, b), (status, stderr))| Converted { onnx_path: a, rten_path: b, status, stderr })
+        .map(|((a, b, _), (status, stderr))| Converted { onnx_path: a, rten_path: b, status, stderr })
         .collect()
 }
 
